@@ -312,6 +312,8 @@ class Scene(Geometry3D):
         # hash of geometry and transforms
         # start with the last modified time of the scene graph
         hashable = [hex(self.graph.transforms.__hash__())]
+        # transforms are evaluated relative to the base frame
+        hashable.append(repr(self.graph.base_frame))
         # take the re-hex string of the hash
         hashable.extend(hex(geometry[k].__hash__()) for k in geometry.keys())
         return caching.hash_fast("".join(hashable).encode("utf-8"))
